@@ -84,7 +84,7 @@ func runC04(r *mc.Run) {
 		maxLeaves = 17
 	}
 	r.Bounds["max_leaves"] = maxLeaves
-	r.Rule = "full product: tree size x leaf x claimed position in [0,2^(depth+2)) u {2^31,2^32-1} x path variants x root variants x leaf variants; oracle = reference definition (position < 2^len(path) and fold reproduces root)"
+	r.Rule = "full product: tree size x leaf x claimed position in [0,2^(depth+2)) u {2^31,2^32-1} x path variants x root variants (incl. empty, 31/33 bytes and wrong sizes that are multiples of 32) x leaf variants (same); oracle = reference definition (position < 2^len(path) and fold reproduces root)"
 	r.Assumptions = []string{"SHA-256 collision resistance is not explored; leaves are pairwise distinct"}
 	type job struct{ n, leaf int }
 	var jobs []job
@@ -109,9 +109,14 @@ func runC04(r *mc.Run) {
 		{
 			f := append([]byte{}, root...)
 			f[0] ^= 1
-			roots = append(roots, namedBytes{"bitflip", f}, namedBytes{"31-bytes", root[:31]}, namedBytes{"33-bytes", append(append([]byte{}, root...), 0)})
+			roots = append(roots, namedBytes{"bitflip", f}, namedBytes{"31-bytes", root[:31]}, namedBytes{"33-bytes", append(append([]byte{}, root...), 0)},
+				// wrong sizes that are whole numbers of hashes
+				namedBytes{"empty", []byte{}}, namedBytes{"64-bytes", append(append([]byte{}, root...), root...)}, namedBytes{"root+32-zero-bytes", append(append([]byte{}, root...), make([]byte, 32)...)})
 		}
-		leafVars := []namedBytes{{"genuine", leaves[j.leaf]}, {"31-bytes", leaves[j.leaf][:31]}, {"33-bytes", append(append([]byte{}, leaves[j.leaf]...), 0)}}
+		lf := leaves[j.leaf]
+		leafVars := []namedBytes{{"genuine", lf}, {"31-bytes", lf[:31]}, {"33-bytes", append(append([]byte{}, lf...), 0)},
+			{"empty", []byte{}}, {"nil", nil}, {"32-zero-bytes", make([]byte, 32)}, {"leaf+32-more-bytes", append(append([]byte{}, lf...), leaves[0]...)},
+			{"leaf+64-more-bytes", append(append(append([]byte{}, lf...), leaves[0]...), lf...)}, {"64-bytes-equal-to-64-byte-root", append(append([]byte{}, root...), root...)}}
 		if depth >= 1 {
 			leafVars = append(leafVars, namedBytes{"inner-node", levels[1][j.leaf/2]})
 		}
